@@ -1,7 +1,7 @@
 """Runs the real tartiflette engine in-process on harness cases: builds an engine from a schema
 model + resolver environment (universal resolver interpreting the environment), executes
 requests, returns canonical responses, call logs and the JSON AST the model consumes."""
-import env  # noqa: F401  (installs the parser substitute)
+import os, env  # noqa: F401  (installs the parser substitute)
 import asyncio, itertools, json, warnings
 import gqlshim
 from pyval import enc, dec, strings_in, stf_table
@@ -140,9 +140,39 @@ def parse_doc(query):
     q = query.encode("utf-8") if isinstance(query, str) else query
     return json.loads(gqlshim.parse_to_json(q))
 
+REQUEST_LIMIT_S = float(os.environ.get("VERIF_REQUEST_LIMIT_S", "150"))
+WATCH = {"pid": None, "seed": None}     # set by framework.Verdict: which check is running
+
+class guard:
+    """A single request (a few ms on the unchanged tree) that is still running after REQUEST_LIMIT_S seconds never
+    produces the result the property speaks about: the check stops there and reports that request as the failing
+    input (the alternative is a check that hangs until its caller's timeout)."""
+    def __init__(self, **payload): self.payload = payload
+    def _fire(self, signum, frame):
+        import framework as fw
+        pid = WATCH["pid"] or "C??"
+        rel = fw.write_replay(pid, {"property": pid, "seed": WATCH["seed"], "what": [f"the request did not complete within {REQUEST_LIMIT_S:.0f} s"], **self.payload})
+        print(f"VIOLATION property={pid} replay={rel}", flush=True)
+        fw.write_evidence(pid, WATCH.get("tier") or "quick", int(WATCH["seed"] or 0), "proof",
+                          {"obligations": 1, "discharged": 0, "checker_cmd": "lake build", "trusted_base": fw.TRUSTED_BASE, "evaluations": 1, "distinct_nontrivial": 1,
+                           "rule": "run aborted: one request did not complete", "samples": [{"query": str(self.payload.get("query"))[:500]}]}, 0.0, 1, [])
+        os._exit(1)
+    def __enter__(self):
+        import signal
+        try:
+            signal.signal(signal.SIGALRM, self._fire); signal.setitimer(signal.ITIMER_REAL, REQUEST_LIMIT_S)
+        except ValueError:
+            pass                      # not in the main thread
+        return self
+    def __exit__(self, *a):
+        import signal
+        try: signal.setitimer(signal.ITIMER_REAL, 0)
+        except ValueError: pass
+        return False
+
 async def run_request(b, query, op_name=None, variables=None, root=None, context=None):
     b.calls.clear(); b.type_calls.clear()
-    with warnings.catch_warnings(record=True) as w:
+    with warnings.catch_warnings(record=True) as w, guard(query=query, operation_name=op_name, variables=variables, sdl=print_sdl(b.model) if b.model else None):
         warnings.simplefilter("always")
         resp = await b.engine.execute(query, operation_name=op_name, variables=variables, initial_value=dec(root) if root is not None else None, context=context)
     return {"data": enc(resp.get("data")), "errors": canon_errors(resp.get("errors")), "has_errors_key": "errors" in resp,
